@@ -12,28 +12,47 @@ Ltac no_feval :=
   simpl; intuition (try discriminate);
   repeat match goal with H : _ \/ _ |- _ => destruct H end; try discriminate; try contradiction.
 
-(** an allowed set only matters through its four memberships *)
-Definition mk_al (c u s m : bool) : allowed :=
-  fun r => match r with CSE => c | ULTIMATE => u | SINGLE => s | MISS => m end.
-
-Lemma run_cc_al_ext :
-  forall scope cv (al : allowed) ans,
-    run_cc shipped_check_cache scope cv (Some al) ans
-    = run_cc shipped_check_cache scope cv (Some (mk_al (al CSE) (al ULTIMATE) (al SINGLE) (al MISS))) ans.
-Proof.
-  intros scope cv al ans.
-  destruct scope, cv; split_answers ans; cbv;
-    repeat match goal with |- context [al ?x] => destruct (al x) end; reflexivity.
-Qed.
-
-(** all closed cases of check_cache at once: [P] is checked on every shape of the arguments *)
-Ltac cc_cases H :=
-  match type of H with
-  | run_cc _ ?scope ?cv (Some (mk_al ?c ?u ?s ?m)) ?ans = _ =>
-      destruct scope, cv; split_answers ans; vm_compute in H
-  | run_cc _ ?scope ?cv None ?ans = _ =>
-      destruct scope, cv; split_answers ans; vm_compute in H
+(** ** check_cache in closed form
+    (note the quirk it makes visible: a SINGLE answer can carry the call_hash of an ULTIMATE
+    call node whose value is missing from the store) *)
+Definition cc_spec (scope : cache_scope) (cv : check_valid) (oal : option allowed) (ans : answers)
+  : cc_result * list consult :=
+  let al := match oal with Some a => a | None => all_results end in
+  match scope with
+  | ScNONE => (CCOut None None MISS, [])
+  | _ =>
+    let cse_q := al CSE in
+    match (if cse_q then a_cse ans else None) with
+    | Some (h, Some v) => (CCOut (Some v) (Some h) CSE, [QNode LkCSE; FCall LkCSE])
+    | cse_found =>
+      let tr1 := if cse_q then QNode LkCSE :: (match cse_found with Some _ => [FCall LkCSE] | None => [] end)
+                 else [] in
+      let ult_q := sc_eqb scope ScBACKEND && cv_eqb cv CvSHALLOW && al ULTIMATE in
+      let ult_found := if ult_q then a_ult ans else None in
+      let tr2 := tr1 ++ (if ult_q then QNode LkULT :: (match ult_found with Some _ => [FCall LkULT] | None => [] end)
+                         else []) in
+      match ult_found with
+      | Some (h, Some v) => (CCOut (Some v) (Some h) ULTIMATE, tr2)
+      | _ =>
+        let hash := match ult_found with Some (h, _) => Some h | None => None end in
+        if sc_eqb scope ScBACKEND && al SINGLE then
+          match a_single ans with
+          | Some v => (CCOut (Some v) hash SINGLE, tr2 ++ [FEval])
+          | None => (CCOut None None MISS, tr2 ++ [FEval])
+          end
+        else (CCOut None None MISS, tr2)
+      end
+    end
   end.
+
+Lemma run_cc_spec :
+  forall scope cv oal ans, run_cc shipped_check_cache scope cv oal ans = cc_spec scope cv oal ans.
+Proof.
+  intros scope cv [al|] ans.
+  - destruct scope, cv; split_answers ans; cbv;
+      repeat match goal with |- context [al ?x] => destruct (al x) end; reflexivity.
+  - destruct scope, cv; split_answers ans; reflexivity.
+Qed.
 
 (** check_cache with an explicit allowed set that lacks SINGLE: the result is never typed SINGLE
     and get_eval_cache is never consulted *)
@@ -44,8 +63,8 @@ Lemma cc_no_single :
     ct <> SINGLE /\ ~ In FEval tr.
 Proof.
   intros scope cv al ans r h ct tr HS H.
-  rewrite run_cc_al_ext, HS in H.
-  destruct (al CSE), (al ULTIMATE), (al MISS); cc_cases H;
+  rewrite run_cc_spec in H; unfold cc_spec in H; rewrite HS, andb_false_r in H.
+  destruct scope, cv; simpl in H; destruct (al CSE), (al ULTIMATE); split_answers ans; simpl in H;
     inversion H; subst; split; try discriminate; no_feval.
 Qed.
 
@@ -53,9 +72,15 @@ Qed.
 Lemma cc_total :
   forall scope cv (oal : option allowed) ans, fst (run_cc shipped_check_cache scope cv oal ans) <> CCPyError.
 Proof.
-  intros scope cv oal ans.
-  destruct oal as [al|]; [rewrite run_cc_al_ext; destruct (al CSE), (al ULTIMATE), (al SINGLE), (al MISS)|];
-    destruct scope, cv; split_answers ans; vm_compute; discriminate.
+  intros scope cv oal ans. rewrite run_cc_spec; unfold cc_spec.
+  destruct scope; try (simpl; discriminate);
+    repeat match goal with
+           | |- context [match ?x with _ => _ end] =>
+               match x with
+               | context [match _ with _ => _ end] => fail 1
+               | _ => destruct x
+               end
+           end; simpl; discriminate.
 Qed.
 
 (** a result typed other than MISS carries a value (so the chain's "hit" always has one) *)
@@ -65,9 +90,15 @@ Lemma cc_typed_has_value :
     ct <> MISS -> r <> None.
 Proof.
   intros scope cv oal ans r h ct tr H.
-  destruct oal as [al|];
-    [rewrite run_cc_al_ext in H; destruct (al CSE), (al ULTIMATE), (al SINGLE), (al MISS)|];
-    cc_cases H; inversion H; subst; intros; try discriminate; try congruence.
+  rewrite run_cc_spec in H; unfold cc_spec in H.
+  destruct scope;
+    repeat match type of H with
+           | context [match ?x with _ => _ end] =>
+               match x with
+               | context [match _ with _ => _ end] => fail 1
+               | _ => destruct x
+               end
+           end; simpl in H; inversion H; subst; intros; try discriminate; try congruence.
 Qed.
 
 (** which lookups can produce which type *)
@@ -77,22 +108,23 @@ Lemma cc_ultimate_needs :
     scope = ScBACKEND /\ cv = CvSHALLOW /\ al ULTIMATE = true.
 Proof.
   intros scope cv al ans r h tr H.
-  rewrite run_cc_al_ext in H.
-  destruct (al CSE), (al ULTIMATE) eqn:EU, (al SINGLE), (al MISS); cc_cases H; inversion H; subst; auto.
+  rewrite run_cc_spec in H; unfold cc_spec in H.
+  destruct scope, cv; simpl in H; destruct (al CSE), (al ULTIMATE) eqn:EU, (al SINGLE); split_answers ans;
+    simpl in H; inversion H; subst; auto.
 Qed.
 
 Lemma cc_scope_none_misses :
   forall cv oal ans, run_cc shipped_check_cache ScNONE cv oal ans = (CCOut None None MISS, []).
-Proof. intros cv [al|] ans; reflexivity. Qed.
+Proof. intros cv oal ans; rewrite run_cc_spec; reflexivity. Qed.
 
 Lemma cc_scope_cse_only_cse :
   forall cv (oal : option allowed) ans r h ct tr,
     run_cc shipped_check_cache ScCSE cv oal ans = (CCOut r h ct, tr) -> ct = CSE \/ ct = MISS.
 Proof.
   intros cv oal ans r h ct tr H.
-  destruct oal as [al|];
-    [rewrite run_cc_al_ext in H; destruct (al CSE), (al ULTIMATE), (al SINGLE), (al MISS)|];
-    destruct cv; split_answers ans; vm_compute in H; inversion H; subst; auto.
+  rewrite run_cc_spec in H; unfold cc_spec in H; simpl in H.
+  destruct ((match oal with Some a => a | None => all_results end) CSE); split_answers ans;
+    simpl in H; inversion H; subst; auto.
 Qed.
 
 (** ** Scheduler._get_cache *)
